@@ -199,6 +199,8 @@ type Monitor struct {
 
 	// Puppet mode: one real node, peers played by the harness, requests strictly sequential.
 	start time.Time
+	evidenceNode string
+	staleCfgElection bool // the recorded membership defect happened in this run (narrow taint from then on)
 
 	// step counters for bounded-progress checks (C15): completed exchanges per directed link, candidacy rounds
 	LinkExch  map[[2]string]int
@@ -292,6 +294,14 @@ func (m *Monitor) violate(ev *Event, props []string, sig, node, format string, a
 					sig += "/after-mixed-install"
 					break
 				}
+			}
+		}
+	}
+	if m.staleCfgElection {
+		for _, pre := range []string{"commit-divergence", "committed-entry-truncated", "apply-divergence", "leader-incomplete", "log-matching", "not-on-voter-majority", "replica-", "discard-lost-committed"} {
+			if strings.HasPrefix(sig, pre) && !strings.Contains(sig, "stale-configuration") {
+				sig += "/after-stale-configuration-election"
+				break
 			}
 		}
 	}
@@ -582,6 +592,33 @@ func (m *Monitor) onBecameLeader(ev *Event, n *NodeSh, term uint64) {
 		m.violate(ev, []string{"C02"}, "two-leaders", "", "term %d: %s became leader but requests of that term name %s", term, n.ID, other)
 	}
 	n.leaderOf[term] = true
+	// C09 (3): the real votes delivered to the new leader, plus its own, are a majority of the VOTERS of its configuration
+	if ev.St != nil && ev.St.Cfg != nil && !m.Puppet {
+		voters := ev.St.Cfg.Voters()
+		got := map[string]bool{n.ID: true}
+		for _, mi := range m.msgs {
+			if mi.m.Kind == "RV" && !mi.m.Prevote && mi.m.From == n.ID && mi.m.Term == term && mi.m.ROK && mi.replied {
+				got[mi.m.To] = true
+			}
+		}
+		cnt := 0
+		for _, v := range voters {
+			if got[v] {
+				cnt++
+			}
+		}
+		m.Counts["c09.election_quorum_checks"]++
+		if !ev.St.Cfg.Members[n.ID] {
+			m.violate(ev, []string{"C09", "C02"}, "non-voter-became-leader", n.ID, "%s became leader of term %d although it is not a voter in its own configuration %s", n.ID, term, ev.St.Cfg.Canon())
+		} else if cnt*2 <= len(voters) {
+			var gl []string
+			for g := range got {
+				gl = append(gl, g)
+			}
+			sort.Strings(gl)
+			m.violate(ev, []string{"C09", "C02"}, "elected-without-voter-majority", n.ID, "%s became leader of term %d with the votes of %v: %d of the %d voters of its configuration %s", n.ID, term, gl, cnt, len(voters), ev.St.Cfg.Canon())
+		}
+	}
 	// C07: every committed entry is in the new leader's log (pre-append shadow).
 	missing := 0
 	var firstMissing uint64
@@ -612,8 +649,11 @@ func (m *Monitor) onBecameLeader(ev *Event, n *NodeSh, term uint64) {
 		sig := "leader-incomplete"
 		// cause signature for the membership defect: the new leader runs under a configuration older than the newest committed one
 		if ev.St != nil && ev.St.Cfg != nil {
-			if newest := m.newestCommittedCfgIndex(); newest > ev.St.Cfg.Index {
+			// recorded defect: the new leader was elected under a configuration that is two or more committed
+			// configurations old (single-server changes only keep ADJACENT configurations' majorities overlapping)
+			if m.cfgStepsBehind(ev.St.Cfg.Index) >= 2 {
 				sig = "leader-incomplete/stale-configuration"
+				m.staleCfgElection = true
 			}
 		}
 		m.violate(ev, []string{"C07"}, sig, n.ID, "%s became leader of term %d without %d committed entries; first: index %d committed as (term %d, committed at seq %d), leader has %s", n.ID, term, missing, firstMissing, ke.Term, m.KSeq[firstMissing], have)
@@ -739,6 +779,11 @@ func (m *Monitor) markCommitted(ev *Event, n *NodeSh, upto uint64, how string) {
 	if !n.haveLog {
 		return
 	}
+	m.evidenceNode = n.ID
+	if how != "leaderCommit" {
+		// followers report what a leader told them: the majority rule is evaluated on leader evidence only
+		m.evidenceNode = ""
+	}
 	if upto > n.lastIndex() {
 		upto = n.lastIndex()
 	}
@@ -778,7 +823,69 @@ func (m *Monitor) checkMajority(ev *Event, idx uint64, e Entry, how string) {
 	}
 	m.majChecked[idx] = true
 	voters := m.StaticVoters
-	if len(voters) == 0 || m.membershipOps > 0 || m.Puppet {
+	if m.Puppet {
+		return
+	}
+	prop := "C04"
+	if m.membershipOps > 0 {
+		// C09 (4): under membership changes the voters are those of the configuration in force at the node
+		// that produced the commit evidence (a leader uses the newest configuration in its log)
+		prop = "C09"
+		voters = nil
+		cn := m.Nodes[m.evidenceNode]
+		if cn == nil {
+			return
+		}
+		// Which configuration was in force at the leader when it decided is not observable exactly (this
+		// implementation adopts additions when appended and removals when applied). The entry must be on a
+		// majority of the voters of at least one configuration the leader can have been using: the newest or
+		// the second newest in its log, or the configuration / committed configuration it last reported.
+		var cands []*Cfg
+		seen := 0
+		for i := len(cn.ents) - 1; i >= 0 && seen < 2; i-- {
+			if cn.ents[i].Type == 2 && cn.ents[i].Cfg != nil {
+				cands = append(cands, cn.ents[i].Cfg)
+				seen++
+			}
+		}
+		if cn.snapLast != nil && cn.snapLast.cfg != nil {
+			cands = append(cands, cn.snapLast.cfg)
+		}
+		if cn.lastSample != nil {
+			if cn.lastSample.Cfg != nil {
+				cands = append(cands, cn.lastSample.Cfg)
+			}
+			if cn.lastSample.CCfg != nil {
+				cands = append(cands, cn.lastSample.CCfg)
+			}
+		}
+		if len(cands) == 0 {
+			return
+		}
+		m.Counts["c09.commit_majority_checks"]++
+		best := ""
+		for _, c := range cands {
+			vs := c.Voters()
+			have := 0
+			for _, id := range vs {
+				if sn := m.Nodes[id]; sn != nil && sn.haveLog {
+					if idx <= sn.base.Index {
+						have++
+					} else if se := sn.entry(idx); se != nil && se.Term == e.Term && se.Hash == e.Hash {
+						have++
+					}
+				}
+			}
+			if have*2 > len(vs) {
+				return
+			}
+			sort.Strings(vs)
+			best = fmt.Sprintf("%d of the %d voters %v", have, len(vs), vs)
+		}
+		m.violate(ev, []string{"C09"}, "not-on-voter-majority", "", "entry (index %d, term %d) became %s at %s although it is not stored by a majority of the voters of any configuration that leader can have been using (e.g. %s)", idx, e.Term, how, cn.ID, best)
+		return
+	}
+	if len(voters) == 0 {
 		return
 	}
 	have := 0
@@ -800,7 +907,7 @@ func (m *Monitor) checkMajority(ev *Event, idx uint64, e Entry, how string) {
 	}
 	m.Counts["c04.majority_checks"]++
 	if have*2 <= len(voters) {
-		m.violate(ev, []string{"C04"}, "not-on-majority", "", "entry (index %d, term %d) became %s while stored on the disks of %v only (%d of %d voters)", idx, e.Term, how, holders, have, len(voters))
+		m.violate(ev, []string{prop}, "not-on-majority", "", "entry (index %d, term %d) became %s while stored on the disks of %v only (%d of the %d voters %v)", idx, e.Term, how, holders, have, len(voters), voters)
 	}
 }
 
@@ -1057,7 +1164,9 @@ func (m *Monitor) onApply(ev *Event) {
 		m.S[ev.Idx] = rec
 		m.canon = append(m.canon, rec)
 		// C04 (i): first application anywhere
-		m.checkMajority(ev, ev.Idx, Entry{Index: ev.Idx, Term: ev.Term, Type: 1, Hash: ev.Hash}, "applied on "+ev.Node)
+		if m.membershipOps == 0 {
+			m.checkMajority(ev, ev.Idx, Entry{Index: ev.Idx, Term: ev.Term, Type: 1, Hash: ev.Hash}, "applied on "+ev.Node)
+		}
 	}
 	if m.Puppet {
 		// the scripted world, not the set of observed applies, defines the committed history
@@ -1292,6 +1401,15 @@ func (m *Monitor) onSample(ev *Event) {
 		}
 	}
 	n.role = s.State
+	// C09 (1): the configuration a node reports is the configuration entry at that index of its own log
+	if s.Cfg != nil && s.Cfg.Index > 0 {
+		if e := n.entry(s.Cfg.Index); e != nil && e.Type == 2 && e.Cfg != nil {
+			m.Counts["c09.cfg_vs_log_checks"]++
+			if !e.Cfg.Equal(s.Cfg) {
+				m.violate(ev, []string{"C09"}, "configuration-differs-from-log", n.ID, "node %s reports configuration %s but the entry at that index of its log is %s", n.ID, s.Cfg.Canon(), e.Cfg.Canon())
+			}
+		}
+	}
 	if p := n.lastSample; p != nil && n.lastSampleInc == ev.Inc {
 		if s.Commit < p.Commit {
 			m.violate(ev, []string{"C06", "C11"}, "commit-index-decreased", n.ID, "node %s commit index went from %d to %d", n.ID, p.Commit, s.Commit)
@@ -1468,4 +1586,35 @@ func (m *Monitor) LinkTail(from, to string, n int) []string {
 		}
 	}
 	return out
+}
+
+// latestCfg returns the newest configuration in the node's disk log shadow (nil if none in the retained part).
+func (n *NodeSh) latestCfg() *Cfg {
+	for i := len(n.ents) - 1; i >= 0; i-- {
+		if n.ents[i].Type == 2 && n.ents[i].Cfg != nil {
+			return n.ents[i].Cfg
+		}
+	}
+	if n.snapLast != nil {
+		return n.snapLast.cfg
+	}
+	return nil
+}
+
+// cfgStepsBehind counts the committed configuration entries newer than the configuration with the given index.
+func (m *Monitor) cfgStepsBehind(idx uint64) int {
+	n := 0
+	for i, e := range m.K {
+		if e.Type == 2 && i > idx {
+			n++
+		}
+	}
+	return n
+}
+
+// HasViolations reports whether any oracle has fired so far.
+func (m *Monitor) HasViolations() bool {
+	m.mu.Lock()
+	defer m.mu.Unlock()
+	return len(m.Viol) > 0
 }
